@@ -136,6 +136,7 @@ def execute(world, op, adopt=True, pre_hook=None):
 def build(env, history, n_init=1):
     """fresh world with `history` replayed (history[0] is normally a 'new' op)"""
     G.CB.reset()
+    env.reset_tables()
     w = World(env)
     for op in history:
         execute(w, op)
@@ -208,6 +209,13 @@ def scalar_ops(n, K, a, obj, P):
                 ops.append(_call(f"with_{n}", "with:kw_unknown", nope=1, **f))
                 ops.append(_call(f"transform_{n}", "transform:attrfn_bad", x=FN("bad"), **f))
         ops.append(_call(f"update_{n}", "update:conf", conf[-1], **f))
+        if K.get("nested") and a.get("lookup"):
+            ops.append(_call(f"with_{n}", "with:lookup", "tbl", **f))
+            ops.append(_call(f"with_{n}", "with:lookup+kw", "tbl", x=9, **f))
+            ops.append(_call(f"update_{n}", "update:lookup+kw", "tbl", x=9, **f))
+            ops.append(_call(f"transform_{n}", "transform:attrfn2", x=FN("inc"), ys=FN("same"), **f))
+            if P.get("invalid", True):
+                ops.append(_call(f"with_{n}", "with:lookup+kw_second_bad", "tbl", x=9, ys="bad", **f))
         if K.get("nested"):
             ops.append(_call(f"update_{n}", "update:noargs", **f))
             ops.append(_call(f"transform_{n}", "transform:noargs", **f))
@@ -250,6 +258,11 @@ def element_ops(n, K, a, obj, P):
                 ops.append(_call(f"with_{it}", "with_item:index:bad", x, _index=0, **f))
                 ops.append(_call(f"with_{it}", "with_item:insert:bad", x, _index=0, _insert=True, **f))
                 ops.append(_call(f"update_{it}", "update_item:index:bad", 0, x, _by_index=True, **f))
+            if nested == "Leaf" and a.get("lookup"):
+                ops.append(_call(f"with_{it}", "with_item:lookup", "tbl", **f))
+                ops.append(_call(f"with_{it}", "with_item:lookup+kw", "tbl", x=9, **f))
+                if P.get("invalid", True):
+                    ops.append(_call(f"with_{it}", "with_item:lookup+kw_second_bad", "tbl", x=9, ys="bad", **f))
             if nested:
                 kwn = {"x": 3} if nested == "Leaf" else {"key": "k", "n": 3}
                 ops.append(_call(f"with_{it}", "with_item:kw", **kwn, **f))
@@ -387,6 +400,9 @@ def ctor_kwargs_variants(rec, P):
         kk = next(K for n, K, a in tab if n == key)
         base = {key: kk["conf"][-1]}
     out = [("new:defaults", dict(base))]
+    for n, K, a in tab:
+        if a.get("lookup"):
+            out.append(("new:lookup", dict(base, **{n: ["list", ["tbl"]] if "item" in K else "tbl"})))
     for n, K, a in tab:
         for v in K["conf"][: (2 if P.get("small") else 4)]:
             out.append(("new:conf", dict(base, **{n: v})))
